@@ -202,6 +202,26 @@ def run_case(case: dict) -> list[tuple[str, str]]:
                     fails.append(("serializers-differ",
                                   f"{variant}: generic wrote {len(g2)} bytes, rdflib wrote "
                                   f"{len(r2)} bytes"))
+        if case["frame_size"] == 250 and cls != "graph":
+            # a container written whole, options with a small frame size and no logical type:
+            # both integrations cut the same number of frames
+            from mc import jwire  # noqa: PLC0415
+
+            try:
+                counts = []
+                for api in ("generic", "rdflib"):
+                    o = DR.make_options(cls, preset, 2, True, 0, generalized=False, rdf_star=False)
+                    d = (DR.g_write(seq, cls, o, "stream_frames_sink") if api == "generic"
+                         else DR.r_write(seq, cls, o, "graph_serialize_options"))
+                    counts.append(len(jwire.split_delimited(d)))
+                if counts[0] != counts[1]:
+                    fails.append(("serializers-differ",
+                                  f"container written whole, frame_size 2, logical type left "
+                                  f"unspecified: generic cuts {counts[0]} frame(s), rdflib "
+                                  f"Graph.serialize {counts[1]}"))
+            except Exception as e:  # noqa: BLE001
+                fails.append(("serialize-raised", f"container, unspecified logical type: "
+                                                  f"{type(e).__name__}: {e}"))
         if case["frame_size"] == 250 and len(seq) >= 2:
             # the same rows with a frame per row (frames that hold lookup entries only, or only
             # the start / end of a graph)
